@@ -29,12 +29,16 @@ def sh(cmd, cwd=None, env=None, timeout=1200):
         return 124, 'TIMEOUT'
 
 
-def confirm(prop, outdir, n, name):
+def confirm(prop, outdir, n, name, inplace=None):
     wt = '/tmp/seedconfirm_%s' % name
-    subprocess.run(['git', '-C', '/repo', 'worktree', 'remove', '--force', wt], capture_output=True)
-    shutil.rmtree(wt, ignore_errors=True)
-    rc, out = sh(['git', '-C', '/repo', 'worktree', 'add', '-q', '--detach', wt, 'HEAD'])
-    assert rc == 0, out
+    if inplace:     # the demo insists on the path of the worktree it was written in: use that (clean) worktree
+        wt = inplace
+        assert not subprocess.run(['git', '-C', wt, 'status', '--porcelain', '--untracked-files=no'], capture_output=True, text=True).stdout.strip()
+    else:
+        subprocess.run(['git', '-C', '/repo', 'worktree', 'remove', '--force', wt], capture_output=True)
+        shutil.rmtree(wt, ignore_errors=True)
+        rc, out = sh(['git', '-C', '/repo', 'worktree', 'add', '-q', '--detach', wt, 'HEAD'])
+        assert rc == 0, out
     env = dict(os.environ, PYTHONPATH=wt, PYTHONDONTWRITEBYTECODE='1')
     patch = os.path.join(outdir, 'patch%s.diff' % n)
     demo = os.path.join(outdir, 'demo%s.py' % n)
@@ -47,8 +51,11 @@ def confirm(prop, outdir, n, name):
             res['suite_patched'] = sh(SUITE, cwd=wt, env=env)
             res['demo_patched'] = sh(['/venv/bin/python', demo], cwd=wt, env=env, timeout=180)
     finally:
-        subprocess.run(['git', '-C', '/repo', 'worktree', 'remove', '--force', wt], capture_output=True)
-        shutil.rmtree(wt, ignore_errors=True)
+        if inplace:
+            subprocess.run(['git', '-C', wt, 'checkout', '--', '.'], capture_output=True)
+        else:
+            subprocess.run(['git', '-C', '/repo', 'worktree', 'remove', '--force', wt], capture_output=True)
+            shutil.rmtree(wt, ignore_errors=True)
     ok = (res.get('apply', (1,))[0] == 0 and res['demo_clean'][0] == 0 and res['suite_patched'][0] == 0 and res['demo_patched'][0] != 0)
     print(name, 'CONFIRMED' if ok else 'REJECTED', {k: v[0] for k, v in res.items()})
     if not ok:
@@ -104,6 +111,6 @@ def check(name, tier='quick'):
 
 if __name__ == '__main__':
     if sys.argv[1] == 'confirm':
-        sys.exit(0 if confirm(*sys.argv[2:6]) else 1)
+        sys.exit(0 if confirm(*sys.argv[2:7]) else 1)
     if sys.argv[1] == 'check':
         sys.exit(0 if check(*sys.argv[2:4]) else 1)
